@@ -107,3 +107,102 @@ def model_text(case, spell=None, consts=None):
     for d in case["dom"]:
         lines.append("    " + decl(d))
     return "\n".join(lines)
+
+
+# ---- minimal-parenthesis rendering by the documented precedence table --------------
+# 7 prefix (- not), 6 * /, 5 + -, 4 and, 3 xor, 2 or, 1 implies (right) / iff (left) sharing a level
+PREC = {"mul": 6, "div": 6, "add": 5, "sub": 5, "b_and": 4, "b_xor": 3, "xor": 3, "b_or": 2,
+        "implies": 1, "b_implies": 1, "iff": 1, "b_iff": 1}
+TXT = {"mul": "*", "div": "/", "add": "+", "sub": "-", "b_and": "and", "b_xor": "xor", "xor": "xor", "b_or": "or",
+       "implies": "implies", "b_implies": "implies", "iff": "iff", "b_iff": "iff"}
+SYM = dict(TXT, **{"b_and": "&&", "b_or": "||", "implies": "->", "b_implies": "->", "iff": "<->", "b_iff": "<->"})
+RIGHT = {"implies", "b_implies"}
+
+
+def _prec(t):
+    op = t["op"]
+    if op in PREC:
+        return PREC[op]
+    if op in ("and", "or") and len(t["args"]) >= 2:
+        return 4 if op == "and" else 2
+    if op in ("neg", "not", "u_not"):
+        return 7
+    return 9          # atoms, blocks
+
+
+def expr_min(t, style=0, logic=False):
+    """Text of tree t with only the parentheses the documented grammar needs.
+    style 0: keywords; 1: symbolic aliases and implicit multiplication where the shape allows."""
+    words = SYM if style == 1 else TXT
+    op = t["op"]
+    if op == "num":
+        if logic and t["d"] == 1 and t["n"] in (0, 1):
+            return "true" if t["n"] == 1 else "false"
+        v = t["n"] / t["d"]
+        s = str(int(v)) if v == int(v) else repr(abs(v))
+        if v < 0:
+            return "-" + (str(int(-v)) if v == int(v) else repr(-v))
+        return s
+    if op == "var":
+        return t["name"]
+    if op == "abs":
+        return f"abs {{ {expr_min(t['a'], style)} }}"
+    if op in ("min", "max"):
+        return f"{op} {{ {', '.join(expr_min(a, style) for a in t['args'])} }}"
+
+    def child(c, parent_prec, right, parent_right_assoc, lg):
+        s = expr_min(c, style, lg)
+        p = _prec(c)
+        is_neg_num = c["op"] == "num" and c["n"] < 0
+        need = p < parent_prec or (p == parent_prec and (right != parent_right_assoc or (c["op"] in RIGHT) != parent_right_assoc))
+        # a negative literal reads as a prefix minus: fine as an operand (prefix binds tightest)
+        return f"({s})" if need and not is_neg_num else s
+
+    if op in ("and", "or"):
+        args = t["args"]
+        if not args:
+            return "true" if op == "and" else "false"
+        if len(args) == 1:
+            return expr_min(args[0], style, True)
+        pp = 4 if op == "and" else 2
+        w = ("&&" if op == "and" else "||") if style == 1 else op
+        parts = [child(a, pp, i > 0, False, True) for i, a in enumerate(args)]
+        return f" {w} ".join(parts)
+    if op in PREC:
+        pp = PREC[op]
+        lg = pp <= 4
+        ra = op in RIGHT
+        a = child(t["a"], pp, False, ra, lg)
+        b = child(t["b"], pp, True, ra, lg)
+        if style == 1 and op == "mul" and t["a"]["op"] == "num" and t["a"]["n"] >= 0 and t["b"]["op"] == "var":
+            return f"{a}{b}"                      # implicit multiplication 2x
+        if style == 1 and op == "mul" and t["a"]["op"] == "num" and t["a"]["n"] >= 0 and t["b"]["op"] in ("add", "sub"):
+            return f"{a}({expr_min(t['b'], style)})"  # 2(x + 1)
+        return f"{a} {words[op]} {b}"
+    if op == "neg":
+        c = t["a"]
+        s = expr_min(c, style)
+        return f"-({s})" if _prec(c) < 9 or (c["op"] == "num" and c["n"] < 0) else f"-{s}"
+    if op in ("not", "u_not"):
+        c = t["a"]
+        s = expr_min(c, style, True)
+        w = "!" if style == 1 else "not "
+        return f"{w}({s})" if _prec(c) < 9 else f"{w}{s}"
+    raise ValueError(op)
+
+
+def program_min(case, style=0, named=False, where=False):
+    """Full source text with minimal parentheses; optional constraint names and where-constants."""
+    lines = ["solve" if case["sense"] == "sat" else f"{case['sense']} {expr_min(case['obj'], style)}", "s.t."]
+    for i, c in enumerate(case["cons"]):
+        nm = f"c{i + 1}: " if named else ""
+        if c.get("assert"):
+            lines.append(f"    {nm}{expr_min(c['lhs'], style, True)}")
+        else:
+            lines.append(f"    {nm}{expr_min(c['lhs'], style)} {CMP[c['cmp']]} {expr_min(c['rhs'], style)}")
+    if not case["cons"]:
+        lines.append("    0 <= 1")
+    lines.append("define")
+    for d in case["dom"]:
+        lines.append("    " + decl(d))
+    return "\n".join(lines)
